@@ -132,5 +132,24 @@ func checkC07(e *RunEnv) *CheckResult {
 		CheckTrans: c07Trans,
 		CheckState: c07State,
 	}
-	return runSpec(e, spec, nil)
+	var sweep int
+	return runSpecWith(e, spec, func(x *Explorer) {
+		base := x.BuildState(seedS0())
+		if base == nil {
+			return
+		}
+		var cs []Case
+		for _, set := range subsetsUpTo(sharpNames, e.pick(3, 4)) {
+			t := nameSetTags(set)
+			steps := sweepBase(set)
+			first, last := set[0], set[len(set)-1]
+			steps = append(steps, Write(first, v2(first)), Run("add", first).WithTags(t...), Run("rm", last).WithTags(t...),
+				Write("zz new", "new\n"), Run("add", "zz new").WithTags(t...), Run("commit", "-m", "second").WithTags(t...), Run("commit", "-m", "third, nothing staged").WithTags(t...))
+			cs = append(cs, Case{Base: base, BaseName: "S0", BaseSeed: seedS0(), Steps: steps, Probe: true})
+		}
+		sweep = x.RunCases(cs)
+	}, func(x *Explorer, cov map[string]interface{}) {
+		cov["name_sweep_cases"] = sweep
+		cov["states"] = x.States + sweep
+	})
 }
